@@ -42,7 +42,7 @@ TEMPLATES_THOROUGH = TEMPLATES_QUICK + [
 
 BOUNDS = {
     'quick': 'R1/R2: 1 file x 1 entry x {0,1,2} ranges, 1 file x 2 entries x 1 range, or 2 files x 1 entry x 1 range; path = one of %d templates with <=3 fully symbolic bytes (0x01-0x7f minus LF) plus concrete multi-byte scalars; hash = 2 symbolic printable non-space bytes; line numbers symbolic u32 <= 99 (one shape near u32::MAX); base sha 4 symbolic hex; R3: every text of <= 5 bytes over {\" SP - , 0 9 a LF CR TAB} and the same text followed by LF---LF{}; R4: remap of a 4-hex symbolic base with a symbolic hex target of length 0, 2, 4 or 8' % len(TEMPLATES_QUICK),
-    'thorough': 'as quick with %d path templates (<=4 symbolic bytes), <=3 ranges per entry, 2 files x 2 entries, three digit-length classes per number; R3 texts <= 5 bytes as in quick (6 bytes was tried: more than 10 core-hours)' % len(TEMPLATES_THOROUGH),
+    'thorough': 'as quick with %d path templates (<=4 symbolic bytes), <=3 ranges per entry, 2 files with 2 + 1 entries, three digit-length classes per number; R3 texts <= 5 bytes as in quick (6 bytes was tried: more than 10 core-hours)' % len(TEMPLATES_THOROUGH),
 }
 OUTSIDE = 'paths containing NUL; hashes containing whitespace other than a space; prompt records are opaque to the codec model (serde_json is trusted for the JSON half); logs with more than 2 files / 3 ranges; line numbers with 3-9 digits'
 ASSUMPTIONS = [
@@ -67,8 +67,9 @@ def plan(tier, seed):
     tasks.append(('roundtrip', {'files': [{'t': 0, 'entries': [1]}, {'t': 0, 'entries': [1]}], 'big': False}))
     tasks.append(('roundtrip', {'files': [{'t': 1, 'entries': [1]}, {'t': 3, 'entries': [1]}], 'big': False}))
     if tier != 'quick':
-        tasks.append(('roundtrip', {'files': [{'t': 1, 'entries': [1, 2]}, {'t': 2, 'entries': [2, 1]}], 'big': False}))
-        tasks.append(('roundtrip', {'files': [{'t': 0, 'entries': [3]}], 'big': True}))
+        # (2 files x 2 entries x 3 ranges and 1 entry x 3 near-u32::MAX ranges were tried: single queries beyond 8 minutes and
+        # 6 GB per worker - outside the thorough tier; what it adds over quick is the larger template and range sets above)
+        tasks.append(('roundtrip', {'files': [{'t': 1, 'entries': [1, 1]}, {'t': 2, 'entries': [1]}], 'big': False}))
     # what the line-based format cannot carry (recorded findings): a path with a line feed, a hash with a space
     for k in range(len(TEMPLATES_LF)):
         tasks.append(('roundtrip', {'files': [{'t': len(TEMPLATES_THOROUGH) + k, 'entries': [1]}], 'big': False}))
